@@ -972,8 +972,10 @@ class TextXVisitor(RRELVisitor):
                     if "eolterm" in modifiers:
                         rule.eolterm = True
 
-        # Mark rule for suppression
-        rule.suppress = suppress
+        # Mark rule for suppression. (Parentheses around a single element
+        # are reduced to that element: a mark set inside them stays.)
+        if suppress:
+            rule.suppress = True
 
         return rule
 
